@@ -146,20 +146,27 @@ fn gen_paren(cst: &Cst<'_>, node_ref: NodeRef, items: &mut PrintItems) {
     items.push_info(start_ln);
     items.push_anchor(LineNumberAnchor::new(end_ln));
 
+    // the closing bracket is missing if there was a syntax error
+    let mut indented = false;
     for child_node_ref in cst.children(node_ref) {
         match cst.get(child_node_ref) {
-            Node::Token(Token::LPar | Token::LBrak, _) => {
+            Node::Token(Token::LPar | Token::LBrak, _) if !indented => {
                 gen_node(cst, child_node_ref, items);
                 indent(2, items);
+                indented = true;
                 items.push_condition(new_line_if_multiple_lines(start_ln, end_ln));
             }
-            Node::Token(Token::RPar | Token::RBrak, _) => {
+            Node::Token(Token::RPar | Token::RBrak, _) if indented => {
                 dedent(2, items);
+                indented = false;
                 items.push_condition(new_line_if_multiple_lines(start_ln, end_ln));
                 gen_node(cst, child_node_ref, items);
             }
             _ => gen_node(cst, child_node_ref, items),
         }
+    }
+    if indented {
+        dedent(2, items);
     }
     items.push_info(end_ln);
 }
@@ -324,11 +331,14 @@ fn gen_rule_decl(cst: &Cst<'_>, node_ref: NodeRef, items: &mut PrintItems) {
 
         let mut semi_cond = new_line_if_multiple_lines(start_ln, end_ln);
         let semi_cond_reeval = semi_cond.create_reevaluation();
+        // the colon or the semicolon is missing if there was a syntax error
+        let mut indented = false;
         for child_node_ref in children {
             match cst.get(child_node_ref) {
-                Node::Token(Token::Colon, _) => {
+                Node::Token(Token::Colon, _) if !indented => {
                     gen_node(cst, child_node_ref, items);
                     indent(2, items);
+                    indented = true;
                     items.push_condition(
                         conditions::new_line_if_multiple_lines_space_or_new_line_otherwise(
                             start_ln,
@@ -336,13 +346,17 @@ fn gen_rule_decl(cst: &Cst<'_>, node_ref: NodeRef, items: &mut PrintItems) {
                         ),
                     );
                 }
-                Node::Token(Token::Semi, _) => {
+                Node::Token(Token::Semi, _) if indented => {
                     dedent(2, items);
+                    indented = false;
                     items.push_condition(semi_cond.clone());
                     gen_node(cst, child_node_ref, items);
                 }
                 _ => gen_node(cst, child_node_ref, items),
             }
+        }
+        if indented {
+            dedent(2, items);
         }
         items.push_info(end_ln);
         items.push_reevaluation(semi_cond_reeval);
